@@ -23,7 +23,8 @@ INVS = ["C14_InitOnce", "C14_InitWhen", "C14_ProcAfterInit", "C14_15_Clean", "C1
         "C15_NoRetention", "C15_FollowFresh"]
 # deviation clause -> an invariant it must break in the model (the module is not vacuous)
 DEV_BREAKS = {"RestoreOnlyMainParser": "C14_15_Clean", "RestoreWithoutInstrument": "C14_Balanced",
-              "StoreKeptOnFailure": "C14_15_Clean", "NoCleanupOnModelProcessorFailure": "C15_NoRetention"}
+              "StoreKeptOnFailure": "C14_15_Clean", "NoCleanupOnModelProcessorFailure": "C15_NoRetention",
+              "NoRestoreForPrimitiveModel": "C14_15_Clean"}
 OWN_FLAVOURS = ("frozen", "setattr", "getattribute")
 PLAIN_FLAVOURS = ("plain", "slots")
 B_TYPE = ("parse", "init", "objproc")     # failures of a nested load after/without its own increment
@@ -112,10 +113,16 @@ def assign_flavours(sc, rng, allow_own=True):
 
 
 def in_fragment(sc):
+    if any(fl.get("prim") for fl in sc["files"]) and sc["grepo"]:
+        return False     # a plain-value model cannot register in a global repository (load from file fails)
+    return _in_fragment(sc)
+
+
+def _in_fragment(sc):
     """Scenarios whose observable behaviour the module states unambiguously (BUILDING rule 2).
 
-    A nested load that fails without / after its own increment un-instruments the outer load
-    (finding RestoreWithoutInstrument).  When the provider swallows that error the outer load goes
+    While the finding RestoreWithoutInstrument is listed as open: a nested load that fails without /
+    after its own increment un-instruments the outer load.  When the provider swallows that error the outer load goes
     on with unreadable user objects; what the name lookup then does depends on where those objects
     sit.  Kept: no user object in the outer load, or the crisp shape (the lookup starts at a
     readable owner directly under the root and meets a user object that has children)."""
@@ -130,6 +137,8 @@ def in_fragment(sc):
     f, k, r = trig[0]
     if not r["swallow"] or ft["step"] not in B_TYPE or sc["files"][ft["f"] - 1]["kind"] != "inner":
         return True
+    if "RestoreWithoutInstrument" not in (common.open_deviations("C14") + common.open_deviations("C15")):
+        return True      # the restriction below only matters while that finding is open (its prediction)
     outer = [fl for fl in sc["files"] if fl["kind"] in ("main", "import")]
     if not any(o["cls"] in sc["user"] for fl in outer for o in fl["objs"]):
         return True
@@ -190,9 +199,24 @@ def _faults(sc):
 USER_SETS = [("Pkg", "DefA"), ("DefA",), ("Model", "Pkg", "DefA"), ("Pkg",), ("Model", "DefA")]
 
 
+def _prim_scenario(rng, n, pid):
+    """A load whose model is a plain value (abstract root rule), user classes present."""
+    files = [dict(kind="main", prim=True, objs=[], refs=[], imports=[]),
+             dict(kind="follow", prim=False, objs=[dict(cls="Model", parent=0), dict(cls="Pkg", parent=1),
+                                                   dict(cls="DefA", parent=2), dict(cls="Use", parent=1)],
+                  refs=[dict(owner=4, tf=2, to=3, post=0, inner=0, swallow=False)], imports=[])]
+    step = rng.choice(["none", "none", "parse", "modelproc"]) if pid == "C14" else rng.choice(["parse", "modelproc"])
+    sc = dict(id=f"r{n}", nest="prim", user=list(rng.choice(USER_SETS)), grepo=False,
+              procs=[p for p in ("Model", "Pkg", "DefA", "DefB", "Use") if rng.random() < 0.7], files=files,
+              fault=dict(step=step, f=0 if step == "none" else 1, k=0), follow=2)
+    return assign_flavours(sc, rng)
+
+
 def random_scenario(rng, n, pid):
     """Generation only: shapes, nesting, flavours and one failure point."""
     nest = rng.choice(["one", "two", "two", "chain", "fan", "diamond", "inner", "swallow"])
+    if rng.random() < 0.04:
+        return _prim_scenario(rng, n, pid)
     nfiles = {"one": 1, "two": 2, "chain": 3, "fan": 3, "diamond": 3, "inner": 2, "swallow": 2}[nest]
     imports = {"one": [[]], "two": [[2], rng.choice([[], [1]])], "chain": [[2], [3], []],
                "fan": [[2, 3], [], []], "diamond": [[2, 3], [3], rng.choice([[], [1]])],
@@ -200,7 +224,7 @@ def random_scenario(rng, n, pid):
     files = []
     for f in range(1, nfiles + 1):
         kind = "main" if f == 1 else ("inner" if nest in ("inner", "swallow") else "import")
-        files.append(dict(kind=kind, objs=_tree(rng, 5), refs=[], imports=list(imports[f - 1])))
+        files.append(dict(kind=kind, prim=False, objs=_tree(rng, 5), refs=[], imports=list(imports[f - 1])))
     # references: targets are Def objects of the own file or a directly imported one
     for f, fl in enumerate(files, 1):
         vis = [f] + [g for g in fl["imports"]]
@@ -225,7 +249,7 @@ def random_scenario(rng, n, pid):
         k, r = rng.choice(cands)
         r["inner"] = 2
         r["swallow"] = nest == "swallow"
-    files.append(dict(kind="follow", objs=[dict(cls="Model", parent=0), dict(cls="Pkg", parent=1),
+    files.append(dict(kind="follow", prim=False, objs=[dict(cls="Model", parent=0), dict(cls="Pkg", parent=1),
                                            dict(cls="DefA", parent=2), dict(cls="Use", parent=1)],
                       refs=[dict(owner=4, tf=nfiles + 1, to=3, post=0, inner=0, swallow=False)], imports=[]))
     if pid == "C15":
